@@ -61,6 +61,8 @@ PolicyBase::PolicyBase( const filename::Definition& fname_def):
 /// Opens the current log file, checks if it still is okay to use the file,
 /// if not closes the file again, rolls the log file generations and opens
 /// a new file.<br>
+/// An existing log file is opened for appending, its contents is kept. Only
+/// the file opened after a rollover is created empty.<br>
 /// All that is done calling the virtual function which must be implemented
 /// by the derived classes, the real policies.
 ///
@@ -79,9 +81,15 @@ void PolicyBase::open( bool from_reopen)
 {
 
    const auto  filename = filename::Builder::filename( mFilenameDefinition);
+   // an existing log file must be continued, not overwritten: 'out' alone
+   // would truncate it. Only the file that is opened after a rollover starts
+   // a new generation and must be empty.
+   const auto  mode = from_reopen
+      ? (std::ios_base::out | std::ios_base::trunc)
+      : (std::ios_base::out | std::ios_base::app | std::ios_base::ate);
 
 
-   mFile.open( filename, std::ios_base::out | std::ios_base::ate);
+   mFile.open( filename, mode);
 
    if (!mFile || !mFile.is_open())
    {
@@ -94,7 +102,7 @@ void PolicyBase::open( bool from_reopen)
          common::FileOperations::mkdir( path);
 
          // try again
-         mFile.open( filename, std::ios_base::out | std::ios_base::ate);
+         mFile.open( filename, mode);
       } // end if
    } // end if
 
